@@ -24,11 +24,14 @@ from ..impl import mx, close_all, quiet
 CFG = {
     "weights": {"new_space": 1.5, "del_space": 0.4, "new_cells": 2.5, "set_formula": 1.5, "set_cached": 0.4,
                 "del_cells": 1.2, "rename_cells": 0.8, "add_bases": 2.5, "remove_bases": 1.0, "set_ref": 2.0,
-                "del_ref": 0.8, "set_mref": 0.4, "set_value": 1.0, "eval": 2.0, "evalall": 0.5, "bad": 5.0,
-                # formulas given as Python OBJECTS (struct_props.gen_bad_obj / formula_objs), parametrised spaces
-                "bad_obj": 1.6, "set_param": 0.4, "eval_item": 0.4},
+                "del_ref": 0.8, "set_mref": 0.4, "set_value": 1.0, "eval": 2.0, "evalall": 0.5, "bad": 5.0},
     "clash_wide": True,
 }
+# a second stream of random histories (the draws of the first do not move): the malformed part offers formulas as
+# Python OBJECTS (struct_props.gen_bad_obj / formula_objs) through every API that takes a formula; parametrised
+# spaces and their ItemSpaces, more inputs - the things such an edit can destroy
+CFG_OBJ = dict(CFG, weights=dict(CFG["weights"], bad=2.0, bad_obj=4.0, set_param=0.8, eval_item=0.8, set_value=2.0,
+                                 add_bases=1.5, new_cells=3.0))
 RULE = ("random histories (12-26 ops) in which about a quarter of the operations are invalid on purpose (invalid and "
         "clashing names, cyclic bases, bases without linearisation, deleting/renaming derived members, malformed "
         "formulas - as source text and as Python objects: lambdas defined several on a line, functions without "
@@ -204,11 +207,22 @@ def run(ctx, out):
     fam = S.formula_object_family()
     S.run_family(out, stats, fam, H, CFG, "formula_object_family")
     out.coverage["evaluations"] += len(fam)
+    n_obj = ctx.n(30, 600)
+    for i in range(n_obj):
+        rng = ctx.rng("objhist", i)
+        sub = core.Outcome()
+        S.run_one([], sub, stats, H(), CFG_OBJ, rng=rng, n_ops=rng.randint(14, 28))
+        S.merge(out, sub)
+        stats["formula_object_histories"] += 1
+        if len([f for f in out.failures if not f.get("key")]) >= 6:
+            break
+    out.coverage["evaluations"] += n_obj
     out.coverage["rule"] += ("; plus the formula-object family (struct_props.formula_object_family): for each of %d kinds "
                              "of Python object offered as a formula, every API that accepts one (cells.formula =, "
                              "set_formula, defcells on an existing cells, new_cells, the formula of a parametrised space "
                              "by attribute and by method, new_space(formula=)) on a derived cells, a cells holding "
-                             "inputs, a caller, a space with ItemSpaces" % len(fam))
+                             "inputs, a caller, a space with ItemSpaces; plus %d random histories whose malformed stream "
+                             "offers such objects (struct_props.gen_bad_obj)" % (len(fam), n_obj))
     out.coverage["input_distribution"] = dict(stats)
 
 
